@@ -1,4 +1,5 @@
 pub mod matchers;
+pub mod mem;
 pub mod store;
 pub mod streams;
 pub mod terms;
